@@ -1154,6 +1154,11 @@ class Lowerer:
                 return AV(ty=PRIM, pyobj=not v.pyobj, has_pyobj=True)
             if isinstance(e.op, ast.Not) or v.is_prim():
                 return AV(ty=PRIM)
+            if v.ty == UNKNOWN:
+                self.materialise(v)
+                x = self.tmp("neg")
+                self.emit(("ext", x))
+                return AV(var=x, ty=UNKNOWN)
             raise Unsupported("unary operator on an object")
         if isinstance(e, ast.Compare):
             l = self.expr(e.left)
@@ -1216,7 +1221,25 @@ class Lowerer:
             self.emit(("load", x, m.var, fid(ELEM)))
             return AV(var=x, ty=ety)
         if isinstance(e, ast.Lambda):
-            raise Unsupported("lambda")
+            # the body may run any number of times, with unknown arguments, wherever the function value ends up
+            # being called (sorted(key=...), map, filter, ...): its effects are emitted here, inside a loop
+            a = e.args
+            if a.vararg or a.kwarg or a.kwonlyargs:
+                raise Unsupported("lambda with * / ** parameters")
+            saved = self.snapshot_locals()
+            self.push()
+            for p_ in a.posonlyargs + a.args:
+                v = self.tmp(p_.arg + "@lambda")
+                self.emit(("ext", v))
+                self.frame.locals[p_.arg] = AV(var=v, ty=UNKNOWN)
+            r = self.expr(e.body)
+            if not r.is_prim() and r.var is None and r.items is not None:
+                self.materialise(r)
+            body = self.pop()
+            self.frame.locals = saved
+            self.emit(("loop", body))
+            return AV(ty=PRIM, pyobj=None, has_pyobj=False, bmeth=None, iterkind=None, func=None, display=None, exact=False,
+                      attrs={"__lambda_result__": r.ty if not r.is_prim() else PRIM})
         if isinstance(e, ast.NamedExpr):
             v = self.expr(e.value)
             self.assign(e.target, v)
@@ -1728,6 +1751,25 @@ class Lowerer:
             v = self.tmp("sum")
             self.emit(("new", v))
             return AV(var=v, ty=el.ty)
+        if name in ("sorted", "reversed", "list", "set", "frozenset", "tuple") and args and \
+                (args[0].gen is not None or (args[0].iterkind is not None and args[0].iterkind[0] not in ("range", "keys"))):
+            # list(zip(..)) / list(enumerate(..)) / list(generator()): iterate it here
+            d = self.tmp(name)
+            self.alloc(d, "newShallow")
+            if args[0].gen is not None:
+                fn_, gargs, gkw, gcls = args[0].gen
+
+                def handler(y):
+                    if not y.is_prim():
+                        self.emit(("store", d, fid(ELEM), self.materialise(y).var))
+                self.call_function(fn_, gargs, gkw, self_cls=gcls, yield_handler=handler)
+            else:
+                self.push()
+                el = self.elements(args[0])
+                if not el.is_prim():
+                    self.emit(("store", d, fid(ELEM), self.materialise(el).var))
+                self.emit(("loop", self.pop()))
+            return AV(var=d, ty=ListOf(UNKNOWN))
         if name in ("sorted", "reversed", "list", "set", "frozenset", "tuple"):
             if not args:
                 v = self.tmp(name)
@@ -1742,6 +1784,22 @@ class Lowerer:
                 self.emit(("new", v))
                 return AV(var=v, ty=DictOf(PRIM))
             return self.build_container(list(kwargs.values()), [a for a in args], "dict")
+        if name in ("map", "filter") and len(args) >= 2:
+            # the function argument is a lambda (already lowered where it was written) or a library function
+            f = args[0]
+            srcs = [a if a.items is None else self.materialise(a) for a in args[1:]]
+            if f.func is not None:
+                self.push()
+                els = [self.elements(x) for x in srcs]
+                r = self.apply(f, els if name == "map" else els[:1], {}, node)
+                if not r.is_prim():
+                    self.materialise(r)
+                self.emit(("loop", self.pop()))
+            if name == "filter":
+                return self.build_container([], [srcs[0]], "list")
+            v = self.tmp("map")
+            self.emit(("ext", v))
+            return AV(var=v, ty=ListOf(UNKNOWN))
         if name == "range":
             return AV(iterkind=("range",))
         if name == "enumerate":
@@ -1755,7 +1813,7 @@ class Lowerer:
     def construct(self, cls, args, kwargs) -> AV:
         if is_prim_class(cls):
             return AV(ty=PRIM)
-        if cls in (list, set, frozenset, tuple, dict, range, enumerate, zip):
+        if cls in (list, set, frozenset, tuple, dict, range, enumerate, zip, map, filter, reversed):
             return self.builtin(cls, args, kwargs, None)
         mod = cls.__module__ or ""
         is_model = hasattr(cls, "model_fields")
